@@ -612,6 +612,15 @@ class PackageGenerator:
                 continue
             m.functions.append(fn)
             m.body.append(self.gen_function(m, fn, m.qname))
+        if r.random() < 0.25:
+            # decorated and overloaded functions: the analyser looks through the decorator / takes the implementation
+            m.add_import("import functools")
+            m.add_import("from typing import overload")
+            dn = f"cached_{m.name.strip('_')}"
+            m.body.append(f"@functools.lru_cache(maxsize=None)\n" + self.gen_function(m, dn, m.qname))
+            on = f"over_{m.name.strip('_')}"
+            m.body.append(f"@overload\ndef {on}(x: int) -> int: ...\n@overload\ndef {on}(x: str) -> str: ...\n" + self.gen_function(m, on, m.qname, force_sig=(("pos", "x", "int | str", None),)))
+            m.functions += [dn, on]
         if self.f("ENUM") and r.random() < 0.5:
             en = f"Kind{m.name.strip('_').title().replace('_', '')}"
             m.body.append(self.gen_enum(m, en))
@@ -631,6 +640,8 @@ class PackageGenerator:
                     subs.append(s)
         if self.f("KEYWORD_NAMES") and r.random() < 0.5:
             subs.append(r.choice(["val", "out", "sub", "schema"]))  # package segments that are Safe-DS keywords
+        if "core" in subs and r.random() < 0.4:
+            subs.append("core_utils")  # a package whose name has a sibling's name as prefix
         if self.f("SNAKE_NAMES"):
             subs = [s if len(s) > 1 else f"{s}_part" for s in subs]
         sub_a, sub_b = (subs + subs)[0], (subs + subs)[1]
@@ -797,7 +808,10 @@ class PackageGenerator:
             mt.body.append('KT = TypeVar("KT")\nVT = TypeVar("VT")\nZT = TypeVar("ZT")\n')
             mt.body.append("class Pair:\n    def __init__(self, key: KT, value: VT, extra: ZT) -> None:\n        self.key = key\n        self.value = value\n\n"
                            "    def swap(self, a: VT, b: KT) -> tuple[KT, VT]:\n        ...\n")
-            mt.all_classes += ["Box", "ReadOnly", "Pair"]
+            mt.body.append("class _Picker:\n    def pick(self, items: list[T], fallback: T) -> T:\n        ...\n")
+            mt.body.append("class PlainPicker(_Picker):\n    pass\n")
+            mt.body.append("class BoxPicker(_Picker, Generic[T]):\n    def __init__(self, item: T) -> None:\n        self.item = item\n")
+            mt.all_classes += ["Box", "ReadOnly", "Pair", "_Picker", "PlainPicker", "BoxPicker"]
             # type variables of the same names used by NON-generic classes of other modules (before and after in name order)
             for uname in ("a_typevar_user", "typevar_user_z"):
                 mu2 = self.new_module(top, uname)
@@ -915,8 +929,11 @@ def two_package_container(seed: int, container: str = "box") -> dict:
     while b["top"] == a["top"] or (set(b["files"]) & set(a["files"])):
         k += 1
         b = generate_package(seed + k)
-    files = {f"{container}/{p}": t for p, t in a["files"].items()}
-    files.update({f"{container}/{p}": t for p, t in b["files"].items()})
+    # either side by side in the container, or each inside its own (non-package) project directory
+    spread = (seed // 7) % 2 == 1
+    pa, pb = (f"{container}/proj_one", f"{container}/zz_proj_two") if spread else (container, container)
+    files = {f"{pa}/{p}": t for p, t in a["files"].items()}
+    files.update({f"{pb}/{p}": t for p, t in b["files"].items()})
     meta = {"tokens": dict(a["meta"]["tokens"]), "probes": {}}
     # tokens are only unique per generated package: keep the first package's tokens, drop the second's docstring checks
     for key in set(a["meta"]["probes"]) | set(b["meta"]["probes"]):
